@@ -9,7 +9,7 @@ TRUSTED = [
 ]
 UNVERIFIED = [
     'MONOTONICITY OF THE CREDITED (CAPPED) PNL IS PROVED FOR ONE AND THE SAME POOL READ: lemma_capped_pnl_monotone holds the pool pnl and its capped value fixed while the close price moves. When the pool pnl is recomputed at the new index price as well (BaseMarketExt::pnl, proved here to be oi_tokens*price - oi_usd), the scaling factor capped/pool_pnl shrinks as the price rises and the credited pnl of a position opened below the pool average entry price can DECREASE in the capped regime (e.g. pool 100 tokens / 1000 usd, position 10 tokens / 50 usd, cap 100: price 12 -> 35, price 20 -> 15). This is the GMX trader-pnl cap; it is not claimed, and not recorded as a finding because it has not been reproduced through the real code natively',
-    'pool_value_without_pnl_for_one_side itself (pool amounts x token prices) is not under contract here; which (is_long, maximize=false) entry is read IS pinned',
+    'pool_value_without_pnl_for_one_side itself (pool amount x token price at the requested extreme) is under contract in C06 (verus/C06.rs), not repeated here; which (is_long, maximize=false) entry is read IS pinned here',
     'the decrease action applying the realised pnl to the pools (DecreasePosition::execute / process_collateral): C07/C08 material, not built',
     'store-side implementations of the accessors (Market as BaseMarket/PerpMarket, Position state): config reads are C16',
     'no native replay registered: a failed obligation is reported with the verifier output and no-failing-input-found',
